@@ -247,4 +247,455 @@ theorem noneIsAbsent_of {members : List String} {fuel0 : Nat} {ws : List GW} {hs
   rw [ea, eb]
   exact ⟨he, ha, hact⟩
 
+/-! ## explicit values that are CALLABLES (`Hook.__get__` calls them) -/
+
+
+def Obj.numb (o : Obj) : Obj := { o with set := o.set ++ o.callSet.map (·.1), callSet := [] }
+def M.numb (m : M) : M := { m with obj := m.obj.numb }
+def Obj.unary (o : Obj) : Prop := ∀ p ∈ o.callSet, p.2 ≤ 1
+
+theorem lookup_none_iff {β : Type} (n : String) (l : List (String × β)) :
+    lookup n l = Option.none ↔ n ∉ l.map (·.1) := by
+  induction l with
+  | nil => simp [lookup]
+  | cons p rest ih =>
+    obtain ⟨k, x⟩ := p
+    simp only [lookup, List.map_cons, List.mem_cons, not_or]
+    by_cases hk : k = n
+    · simp [hk]
+    · simp [hk, ih, Ne.symm hk]
+
+theorem callExplicit_std (n : String) (k : Nat) (h : k ≤ 1) : callExplicit CallConv.std n k = .val (.var n) := by
+  have : k = 0 ∨ k = 1 := by omega
+  rcases this with rfl | rfl <;> simp [callExplicit, CallConv.std, lookupN]
+
+theorem numb_hasSet (o : Obj) (n : String) : o.numb.hasSet n = o.hasSet n := by
+  have h : (lookup n o.callSet).isSome = decide (n ∈ o.callSet.map (·.1)) := by
+    cases hl : lookup n o.callSet with
+    | none => simpa using (lookup_none_iff n o.callSet).mp hl
+    | some v => simpa using ⟨v, lookup_mem hl⟩
+  simp only [Obj.numb, Obj.hasSet, h, lookup, List.contains_eq_mem, List.mem_append, Option.isSome_none, Bool.or_false,
+    Bool.decide_or]
+  cases decide (n ∈ o.set) <;> cases decide (n ∈ o.noneSet) <;> cases decide (n ∈ List.map (fun x => x.fst) o.callSet) <;> simp
+
+theorem ownRead_numb (o : Obj) (hu : o.unary) (n : String) :
+    ownRead CallConv.std o.numb n = ownRead CallConv.std o n := by
+  unfold ownRead
+  by_cases hs : n ∈ o.set
+  · simp [Obj.numb, hs]
+  · cases hl : lookup n o.callSet with
+    | some k =>
+      have hm := lookup_mem hl
+      have : n ∈ o.callSet.map (·.1) := List.mem_map.mpr ⟨(n, k), hm, rfl⟩
+      simp [Obj.numb, hs, this, callExplicit_std n k (hu _ hm)]
+    | none =>
+      have := (lookup_none_iff n o.callSet).mp hl
+      simp [Obj.numb, hs, this, lookup]
+
+theorem step_numb (w : World) (hc : w.conv = CallConv.std) (m : M) (hu : m.obj.unary) :
+    step w m.numb = (step w m).numb := by
+  have h1 := ownRead_numb m.obj hu
+  have h2 := numb_hasSet m.obj
+  unfold step M.numb
+  simp only [hc, h1, h2]
+  repeat' split
+  all_goals simp_all [Obj.numb]
+
+
+theorem step_callSet (w : World) (m : M) : (step w m).obj.callSet = m.obj.callSet := by
+  unfold step
+  dsimp only
+  repeat' split
+  all_goals simp
+
+theorem final_numb (m : M) : m.numb.final = m.final := rfl
+
+theorem exec_numb (w : World) (hc : w.conv = CallConv.std) (n : Nat) (m : M) (hu : m.obj.unary) :
+    exec w n m.numb = (exec w n m).map M.numb := by
+  induction n generalizing m with
+  | zero => by_cases hf : m.final = true <;> simp [exec, final_numb, hf]
+  | succ n ih =>
+    by_cases hf : m.final = true
+    · simp [exec, final_numb, hf]
+    · simp only [exec, final_numb, hf]
+      rw [step_numb w hc m hu]
+      exact ih _ (by unfold Obj.unary; rw [step_callSet]; exact hu)
+
+theorem exec_callSet (w : World) (n : Nat) (m r : M) (h : exec w n m = some r) : r.obj.callSet = m.obj.callSet := by
+  induction n generalizing m with
+  | zero =>
+    simp only [exec] at h
+    split at h
+    · cases h; rfl
+    · cases h
+  | succ n ih =>
+    simp only [exec] at h
+    split at h
+    · cases h; rfl
+    · exact (ih _ h).trans (step_callSet w m)
+
+theorem read1_callSet (w : World) (fuel : Nat) (o : Obj) (n : String) : (read1 w fuel o n).2.callSet = o.callSet := by
+  unfold read1
+  split
+  · rename_i m hm
+    have := exec_callSet w fuel _ m hm
+    split <;> exact this
+  · rfl
+
+theorem read1_numb (w : World) (hc : w.conv = CallConv.std) (fuel : Nat) (o : Obj) (hu : o.unary) (n : String) :
+    read1 w fuel o.numb n = ((read1 w fuel o n).1, (read1 w fuel o n).2.numb) := by
+  unfold read1
+  have e : ({ ctl := .read n, stack := [], obj := o.numb, steps := 0, maxDepth := 0 } : M)
+      = M.numb { ctl := .read n, stack := [], obj := o, steps := 0, maxDepth := 0 } := rfl
+  rw [e, exec_numb w hc fuel _ hu]
+  cases exec w fuel { ctl := .read n, stack := [], obj := o, steps := 0, maxDepth := 0 } with
+  | none => rfl
+  | some m =>
+    simp only [Option.map_some, M.numb]
+    split <;> rfl
+
+theorem readAll_numb (w : World) (hc : w.conv = CallConv.std) (fuel : Nat) (o : Obj) (hu : o.unary) (ord : List String) :
+    readAll w fuel o.numb ord = ((readAll w fuel o ord).1, (readAll w fuel o ord).2.numb) := by
+  induction ord generalizing o with
+  | nil => rfl
+  | cons n r ih =>
+    simp only [readAll]
+    rw [read1_numb w hc fuel o hu n]
+    simp only []
+    rw [ih (read1 w fuel o n).2 (by unfold Obj.unary; rw [read1_callSet]; exact hu)]
+
+/-! ### only membership in `__dict__` matters, not the order of its entries -/
+
+def Obj.withSet (o : Obj) (s : List String) : Obj := { o with set := s }
+def M.withSet (m : M) (s : List String) : M := { m with obj := m.obj.withSet s }
+
+theorem step_set (w : World) (m : M) : (step w m).obj.set = m.obj.set := by
+  unfold step
+  dsimp only
+  repeat' split
+  all_goals simp
+
+theorem step_withSet (w : World) (m : M) (s : List String) (hs : ∀ n, n ∈ s ↔ n ∈ m.obj.set) :
+    step w (m.withSet s) = (step w m).withSet s := by
+  have h1 : ∀ n, ownRead w.conv (m.obj.withSet s) n = ownRead w.conv m.obj n := by
+    intro n; simp [ownRead, Obj.withSet, hs n]
+  have h2 : ∀ n, (m.obj.withSet s).hasSet n = m.obj.hasSet n := by
+    intro n; simp [Obj.hasSet, Obj.withSet, hs n]
+  unfold step M.withSet
+  simp only [h1, h2]
+  repeat' split
+  all_goals simp_all [Obj.withSet]
+
+theorem exec_withSet (w : World) (n : Nat) (m : M) (s : List String) (hs : ∀ n, n ∈ s ↔ n ∈ m.obj.set) :
+    exec w n (m.withSet s) = (exec w n m).map (·.withSet s) := by
+  have hfin : (m.withSet s).final = m.final := rfl
+  induction n generalizing m with
+  | zero => by_cases hf : m.final = true <;> simp [exec, hfin, hf]
+  | succ n ih =>
+    have hfin : (m.withSet s).final = m.final := rfl
+    by_cases hf : m.final = true
+    · simp [exec, hfin, hf]
+    · simp only [exec, hfin, hf]
+      rw [step_withSet w m s hs]
+      exact ih _ (by intro k; rw [step_set]; exact hs k) rfl
+
+theorem exec_set (w : World) (n : Nat) (m r : M) (h : exec w n m = some r) : r.obj.set = m.obj.set := by
+  induction n generalizing m with
+  | zero =>
+    simp only [exec] at h
+    split at h
+    · cases h; rfl
+    · cases h
+  | succ n ih =>
+    simp only [exec] at h
+    split at h
+    · cases h; rfl
+    · exact (ih _ h).trans (step_set w m)
+
+theorem read1_set (w : World) (fuel : Nat) (o : Obj) (n : String) : (read1 w fuel o n).2.set = o.set := by
+  unfold read1
+  split
+  · rename_i m hm
+    have := exec_set w fuel _ m hm
+    split <;> exact this
+  · rfl
+
+theorem read1_withSet (w : World) (fuel : Nat) (o : Obj) (s : List String) (hs : ∀ n, n ∈ s ↔ n ∈ o.set)
+    (n : String) : read1 w fuel (o.withSet s) n = ((read1 w fuel o n).1, (read1 w fuel o n).2.withSet s) := by
+  unfold read1
+  have e : ({ ctl := .read n, stack := [], obj := o.withSet s, steps := 0, maxDepth := 0 } : M)
+      = M.withSet { ctl := .read n, stack := [], obj := o, steps := 0, maxDepth := 0 } s := rfl
+  rw [e, exec_withSet w fuel _ s hs]
+  cases exec w fuel { ctl := .read n, stack := [], obj := o, steps := 0, maxDepth := 0 } with
+  | none => rfl
+  | some m =>
+    simp only [Option.map_some, M.withSet]
+    split <;> rfl
+
+theorem readAll_withSet (w : World) (fuel : Nat) (o : Obj) (s : List String) (hs : ∀ n, n ∈ s ↔ n ∈ o.set)
+    (ord : List String) :
+    readAll w fuel (o.withSet s) ord = ((readAll w fuel o ord).1, (readAll w fuel o ord).2.withSet s) := by
+  induction ord generalizing o with
+  | nil => rfl
+  | cons n r ih =>
+    simp only [readAll]
+    rw [read1_withSet w fuel o s hs n]
+    simp only []
+    rw [ih (read1 w fuel o n).2 (by intro k; rw [read1_set]; exact hs k)]
+
+/-- **a member supplied as a callable is supplied**: with the calling convention of `Hook.__get__`
+(`inspect.signature`: no parameter → `value()`, otherwise `value(instance)`) an object whose explicit values `set` are
+partly callables of 0 or 1 parameters (`calls`) answers every sequence of reads exactly as the object that carries the
+numbers: same values, same error kinds, same step counts, same numbers of hook function invocations, same cache, same marks -/
+theorem scenarioC_eq_scenario (w : World) (hc : w.conv = CallConv.std) (fuel : Nat) (set : List String)
+    (calls : List (String × Nat)) (hu : ∀ p ∈ calls, p.2 ≤ 1) (ord : List String) :
+    (scenarioC w fuel set calls ord).1 = (scenario w fuel set ord).1 ∧
+    (scenarioC w fuel set calls ord).2.cache = (scenario w fuel set ord).2.cache ∧
+    (scenarioC w fuel set calls ord).2.active = (scenario w fuel set ord).2.active := by
+  have hu' : (Obj.freshC set calls).unary := by
+    intro p hp
+    simp only [Obj.freshC, List.mem_filter] at hp
+    exact hu p hp.1
+  have hmem : ∀ n, n ∈ (Obj.freshC set calls).numb.set ↔ n ∈ (Obj.fresh set).set := by
+    intro n
+    simp only [Obj.freshC, Obj.numb, Obj.fresh, List.mem_append, List.mem_filter, List.mem_map, List.contains_eq_mem,
+      decide_eq_true_eq]
+    constructor
+    · rintro (⟨h, _⟩ | ⟨p, ⟨_, hp⟩, rfl⟩)
+      · exact h
+      · exact hp
+    · intro h
+      cases hl : lookup n calls with
+      | none => left; exact ⟨h, by simp⟩
+      | some k => right; exact ⟨(n, k), ⟨lookup_mem hl, h⟩, rfl⟩
+  have e : (Obj.freshC set calls).numb = (Obj.fresh set).withSet (Obj.freshC set calls).numb.set := by
+    simp [Obj.freshC, Obj.numb, Obj.fresh, Obj.withSet]
+  have h1 := readAll_numb w hc fuel (Obj.freshC set calls) hu' ord
+  have h2 := readAll_withSet w fuel (Obj.fresh set) _ hmem ord
+  rw [e, h2] at h1
+  have h3 := congrArg Prod.fst h1
+  have h4 := congrArg Prod.snd h1
+  simp only at h3 h4
+  unfold scenarioC scenario
+  refine ⟨h3.symm, ?_, ?_⟩
+  · have := congrArg Obj.cache h4; simpa [Obj.withSet, Obj.numb] using this.symm
+  · have := congrArg Obj.active h4; simpa [Obj.withSet, Obj.numb] using this.symm
+
+
+/-! ## template objects and copy sites -/
+
+
+/-! ### the explicit part of an object (`__dict__`) is changed by edits only, never by a read -/
+
+/-- same `__dict__` -/
+def Obj.sameDict (a b : Obj) : Prop :=
+  a.set = b.set ∧ a.noneSet = b.noneSet ∧ a.callSet = b.callSet ∧ a.given = b.given
+
+theorem Obj.sameDict_refl (a : Obj) : a.sameDict a := ⟨rfl, rfl, rfl, rfl⟩
+theorem Obj.sameDict.trans {a b c : Obj} (h1 : a.sameDict b) (h2 : b.sameDict c) : a.sameDict c :=
+  ⟨h1.1.trans h2.1, h1.2.1.trans h2.2.1, h1.2.2.1.trans h2.2.2.1, h1.2.2.2.trans h2.2.2.2⟩
+
+theorem explicitOnly_eq_iff (a b : Obj) : a.explicitOnly = b.explicitOnly ↔ a.sameDict b := by
+  cases a; cases b
+  simp [Obj.explicitOnly, Obj.sameDict]
+
+theorem step_dict (w : World) (m : M) : (step w m).obj.sameDict m.obj := by
+  unfold step Obj.sameDict
+  dsimp only
+  repeat' split
+  all_goals simp
+
+theorem exec_dict (w : World) (n : Nat) (m r : M) (h : exec w n m = some r) : r.obj.sameDict m.obj := by
+  induction n generalizing m with
+  | zero =>
+    simp only [exec] at h
+    split at h
+    · cases h; exact Obj.sameDict_refl _
+    · cases h
+  | succ n ih =>
+    simp only [exec] at h
+    split at h
+    · cases h; exact Obj.sameDict_refl _
+    · exact (ih _ h).trans (step_dict w m)
+
+theorem read1_dict (w : World) (fuel : Nat) (o : Obj) (n : String) : (read1 w fuel o n).2.sameDict o := by
+  unfold read1
+  split
+  · rename_i m hm
+    have := exec_dict w fuel _ m hm
+    split <;> exact this
+  · exact Obj.sameDict_refl _
+
+def isRead : Op → Bool
+  | .read _ => true
+  | _ => false
+
+/-- the edits of a history (the reads dropped) -/
+def editsOf (ops : List Op) : List Op := ops.filter (fun op => !isRead op)
+
+theorem applyOp_dict (w w' : World) (fuel fuel' : Nat) (a b : Obj) (h : a.sameDict b) (op : Op) (hop : isRead op = false) :
+    (applyOp w fuel a op).sameDict (applyOp w' fuel' b op) := by
+  obtain ⟨h1, h2, h3, h4⟩ := h
+  cases op <;> simp [isRead] at hop <;> simp [applyOp, Obj.forget, Obj.sameDict, h1, h2, h3, h4]
+
+theorem applyOps_dict (w : World) (fuel : Nat) (a b : Obj) (h : a.sameDict b) (ops : List Op) :
+    (applyOps w fuel a ops).sameDict (applyOps w fuel b (editsOf ops)) := by
+  induction ops generalizing a b with
+  | nil => simpa [applyOps, applyOpsR, editsOf] using h
+  | cons op r ih =>
+    cases op with
+    | read n =>
+      have e : editsOf (Op.read n :: r) = editsOf r := by simp [editsOf, isRead]
+      rw [e]
+      have : applyOps w fuel a (Op.read n :: r) = applyOps w fuel (read1 w fuel a n).2 r := by
+        simp [applyOps, applyOpsR]
+      rw [this]
+      exact ih _ _ ((read1_dict w fuel a n).trans h)
+    | supply n =>
+      have e : editsOf (Op.supply n :: r) = Op.supply n :: editsOf r := by simp [editsOf, isRead]
+      rw [e]
+      have h1 : ∀ o, applyOps w fuel o (Op.supply n :: r) = applyOps w fuel (applyOp w fuel o (.supply n)) r := by
+        intro o; simp [applyOps, applyOpsR]
+      have h2 : ∀ o, applyOps w fuel o (Op.supply n :: editsOf r) = applyOps w fuel (applyOp w fuel o (.supply n)) (editsOf r) := by
+        intro o; simp [applyOps, applyOpsR]
+      rw [h1, h2]
+      exact ih _ _ (applyOp_dict w w fuel fuel a b h _ rfl)
+    | unsupply n =>
+      have e : editsOf (Op.unsupply n :: r) = Op.unsupply n :: editsOf r := by simp [editsOf, isRead]
+      rw [e]
+      have h1 : ∀ o, applyOps w fuel o (Op.unsupply n :: r) = applyOps w fuel (applyOp w fuel o (.unsupply n)) r := by
+        intro o; simp [applyOps, applyOpsR]
+      have h2 : ∀ o, applyOps w fuel o (Op.unsupply n :: editsOf r) = applyOps w fuel (applyOp w fuel o (.unsupply n)) (editsOf r) := by
+        intro o; simp [applyOps, applyOpsR]
+      rw [h1, h2]
+      exact ih _ _ (applyOp_dict w w fuel fuel a b h _ rfl)
+    | supplyNone n =>
+      have e : editsOf (Op.supplyNone n :: r) = Op.supplyNone n :: editsOf r := by simp [editsOf, isRead]
+      rw [e]
+      have h1 : ∀ o, applyOps w fuel o (Op.supplyNone n :: r) = applyOps w fuel (applyOp w fuel o (.supplyNone n)) r := by
+        intro o; simp [applyOps, applyOpsR]
+      have h2 : ∀ o, applyOps w fuel o (Op.supplyNone n :: editsOf r) = applyOps w fuel (applyOp w fuel o (.supplyNone n)) (editsOf r) := by
+        intro o; simp [applyOps, applyOpsR]
+      rw [h1, h2]
+      exact ih _ _ (applyOp_dict w w fuel fuel a b h _ rfl)
+
+/-! ### a copy site that takes over the template's `__dict__` only builds the fresh object given the explicit values -/
+
+theorem filterMap_const_none {α β : Type} (l : List α) : l.filterMap (fun _ => (Option.none : Option β)) = [] := by
+  induction l with
+  | nil => rfl
+  | cons x r ih => simp [ih]
+
+set_option linter.unusedSimpArgs false in
+theorem ofEntries_dictEntries (o : Obj) : Obj.ofEntries o.dictEntries = o.explicitOnly := by
+  cases o with
+  | mk set cache active noneSet callSet given =>
+    simp only [Obj.ofEntries, Obj.dictEntries, Obj.explicitOnly, List.filterMap_append, List.filterMap_map]
+    congr 1 <;> simp [Function.comp_def, filterMap_const_none]
+
+theorem copyObj_dict (o : Obj) : copyObj ["dict"] o = some o.explicitOnly := by
+  simp [copyObj, copyDict, mergeDict, ofEntries_dictEntries]
+
+
+/-- a copy site that takes over the public part of the template's `__dict__` and nothing else, applied to a template with ANY
+history `ops` of reads and edits (on any world, with any fuel): the copy IS the fresh object that carries the explicit
+values the template holds after its edits — nothing the reads left in the template's `__cache__` reaches it -/
+theorem copy_dict_after_history (tw : World) (fuel : Nat) (o : Obj) (ops : List Op) :
+    copyObj ["dict"] (applyOps tw fuel o ops) = some (applyOps tw fuel o (editsOf ops)).explicitOnly := by
+  rw [copyObj_dict]
+  exact congrArg some ((explicitOnly_eq_iff _ _).mpr (applyOps_dict tw fuel o o (Obj.sameDict_refl o) ops))
+
+/-- without reads the world and the fuel do not matter -/
+theorem applyOps_edits_indep (w w' : World) (fuel fuel' : Nat) (o : Obj) (ops : List Op) :
+    applyOps w fuel o (editsOf ops) = applyOps w' fuel' o (editsOf ops) := by
+  induction ops generalizing o with
+  | nil => rfl
+  | cons op r ih =>
+    cases op with
+    | read n => simpa [editsOf, isRead] using ih o
+    | supply n => simpa [editsOf, isRead, applyOps, applyOpsR, applyOp] using ih _
+    | unsupply n => simpa [editsOf, isRead, applyOps, applyOpsR, applyOp] using ih _
+    | supplyNone n => simpa [editsOf, isRead, applyOps, applyOpsR, applyOp] using ih _
+
+def isNoneOp : Op → Bool
+  | .supplyNone _ => true
+  | _ => false
+
+/-- an object whose `__dict__` holds numbers only -/
+def Obj.plain (o : Obj) : Prop := o.noneSet = [] ∧ o.callSet = [] ∧ o.given = []
+
+/-- edits that supply numbers / delete, on an object that holds numbers only: the names in `__dict__` are `editSet` -/
+theorem applyOps_edits_plain (w : World) (fuel : Nat) (o : Obj) (hp : o.plain) (ops : List Op)
+    (hn : ∀ op ∈ ops, isNoneOp op = false) :
+    (applyOps w fuel o (editsOf ops)).set = editSet o.set ops ∧ (applyOps w fuel o (editsOf ops)).plain := by
+  induction ops generalizing o with
+  | nil => exact ⟨rfl, hp⟩
+  | cons op r ih =>
+    have hr : ∀ op ∈ r, isNoneOp op = false := fun x hx => hn x (List.mem_cons_of_mem _ hx)
+    obtain ⟨p1, p2, p3⟩ := hp
+    cases op with
+    | read n => simpa [editsOf, isRead, editSet] using ih o ⟨p1, p2, p3⟩ hr
+    | supply n =>
+      have := ih (applyOp w fuel o (.supply n)) (by simp [Obj.plain, applyOp, Obj.forget, p1, p2, p3]) hr
+      simpa [editsOf, isRead, editSet, applyOps, applyOpsR, applyOp, Obj.forget] using this
+    | unsupply n =>
+      have := ih (applyOp w fuel o (.unsupply n)) (by simp [Obj.plain, applyOp, Obj.forget, p1, p2, p3]) hr
+      simpa [editsOf, isRead, editSet, applyOps, applyOpsR, applyOp, Obj.forget] using this
+    | supplyNone n => exact absurd (hn _ (List.mem_cons_self)) (by simp [isNoneOp])
+
+theorem explicitOnly_plain (o : Obj) (hp : o.plain) : o.explicitOnly = Obj.fresh o.set := by
+  obtain ⟨p1, p2, p3⟩ := hp
+  cases o
+  simp_all [Obj.explicitOnly, Obj.fresh]
+
+/-- **copy-then-read = read on a fresh object given the template's explicit values.**  Template: a fresh object of world `tw`
+with the names `s0` supplied, put through ANY history `ops` of reads, new supplies and deletions (`hn`: no `None`); copy site:
+takes over the template's `__dict__`; then the names `ord` are read on the copy in world `cw`.  The reads (values
+symbolically, error kinds, steps, depth, hook function invocations) and the final state are those of `scenario cw fuel'
+(editSet s0 ops) ord` — the fresh object of world `cw` given exactly the names the template holds explicitly after its edits. -/
+theorem copy_dict_reads_as_fresh (tw cw : World) (fuel fuel' : Nat) (s0 : List String) (ops : List Op)
+    (hn : ∀ op ∈ ops, isNoneOp op = false) (ord : List String) :
+    ∃ c, copyObj ["dict"] (applyOps tw fuel (Obj.fresh s0) ops) = some c ∧
+      readAll cw fuel' c ord = scenario cw fuel' (editSet s0 ops) ord := by
+  refine ⟨_, copy_dict_after_history tw fuel (Obj.fresh s0) ops, ?_⟩
+  obtain ⟨h1, h2⟩ := applyOps_edits_plain tw fuel (Obj.fresh s0) ⟨rfl, rfl, rfl⟩ ops hn
+  rw [explicitOnly_plain _ h2, h1]
+  rfl
+
+/-! ## the group statements for objects whose explicit values are (partly) callables -/
+
+/-- `GroupConsistent` with the supplied members and the other explicit values of the world (`g.base`) given IN WHATEVER FORM:
+any of them as a callable without parameter or with one parameter (`calls`: name ↦ number of parameters), the rest as numbers -/
+def GroupConsistentC (s : Spec) (fuel0 : Nat) (ws : List GW) (ρ : String → ℝ) (adm : List String → Prop) : Prop :=
+  ∀ g ∈ ws, ∀ sup ∈ sublists s.members, adm sup → ∀ calls : List (String × Nat), (∀ p ∈ calls, p.2 ≤ 1) →
+    ∀ ord ∈ perms s.members, ∀ fuel, fuel0 ≤ fuel →
+    ∀ r ∈ (scenarioC g.world fuel (g.base ++ sup) calls ord).1,
+      (r.name ∈ sup → r.res = .val (.var r.name)) ∧
+      (derivable s g sup r.name = true → ∃ e, r.res = .val e ∧ Expr.eval ρ e = ρ r.name) ∧
+      (derivable s g sup r.name = false → r.res = .err .attr)
+
+theorem groupConsistentC_of {s : Spec} {fuel0 : Nat} {ws : List GW} {ρ : String → ℝ} {adm : List String → Prop}
+    (hw : ∀ g ∈ ws, g.world.conv = CallConv.std) (h : GroupConsistent s fuel0 ws ρ adm) :
+    GroupConsistentC s fuel0 ws ρ adm := by
+  intro g hg sup hs ha calls hu ord ho fuel hf r hr
+  rw [(scenarioC_eq_scenario g.world (hw g hg) fuel (g.base ++ sup) calls hu ord).1] at hr
+  exact h g hg sup hs ha ord ho fuel hf r hr
+
+/-- `InsufficientBounded` in whatever form the explicit values are given -/
+def InsufficientBoundedC (s : Spec) (fuel0 : Nat) (ws : List GW) (N D : Nat) : Prop :=
+  ∀ g ∈ ws, ∀ sup ∈ sublists s.members, ∀ calls : List (String × Nat), (∀ p ∈ calls, p.2 ≤ 1) →
+    ∀ ord ∈ perms s.members, ∀ fuel, fuel0 ≤ fuel →
+    (∀ r ∈ (scenarioC g.world fuel (g.base ++ sup) calls ord).1,
+      r.steps ≤ N ∧ r.depth ≤ D ∧ r.res ≠ .err .fuel ∧
+      (derivable s g sup r.name = false → r.res = .err .attr)) ∧
+    (scenarioC g.world fuel (g.base ++ sup) calls ord).2.active = []
+
+theorem insufficientBoundedC_of {s : Spec} {fuel0 : Nat} {ws : List GW} {N D : Nat}
+    (hw : ∀ g ∈ ws, g.world.conv = CallConv.std) (h : InsufficientBounded s fuel0 ws N D) :
+    InsufficientBoundedC s fuel0 ws N D := by
+  intro g hg sup hs calls hu ord ho fuel hf
+  obtain ⟨e1, _, e3⟩ := scenarioC_eq_scenario g.world (hw g hg) fuel (g.base ++ sup) calls hu ord
+  rw [e1, e3]
+  exact h g hg sup hs ord ho fuel hf
+
 end Mutual
